@@ -202,3 +202,91 @@ class View:
     def ongoing(self, filter_tokens):
         t = self.now(filter_tokens)
         return [x for x in self.sop.values() if x.end_time > t]
+
+
+# ---------------------------------------------------------------------------------------------
+# A third-party observer that raises from `update()` (C02, C13)
+# ---------------------------------------------------------------------------------------------
+def raiser_episode(seed):
+    """A user observer (subscribed AFTER the reward observers) raises once from `update()`; the caller catches the exception and goes on.
+    Whatever the library does about such an exception, what it shows afterwards must be consistent: an operation is either in the
+    schedule (then at its forced start, with the tracking vectors saying so and one reward emitted for it) or not (then nothing was
+    emitted for it and the clocks do not know it).  Returns {"C02": [...], "C13": [...]} lists of (kind, message)."""
+    import random
+    import gen
+    import jsl
+    from impl import build_instance
+    from job_shop_lib.reinforcement_learning import MakespanReward, IdleTimeReward
+    r = random.Random(seed)
+    _, jobs = gen.gen_instance(r, r.choice(["classic", "irregular", "recirc", "flexible", "ties"]), max_jobs=3, max_machines=3, max_ops=3)
+    inst = build_instance(jobs)
+    d = jsl.Dispatcher(inst)
+    mk, idle = MakespanReward(d), IdleTimeReward(d)
+    hist = jsl.HistoryObserver(d)
+    fire_at = r.randint(1, max(1, gen.num_ops(jobs) - 1))
+
+    class Guard(jsl.DispatcherObserver):
+        """e.g. a deadline / budget guard of the user's"""
+        calls = 0
+
+        def update(self, scheduled_operation):
+            Guard.calls += 1
+            if Guard.calls == fire_at:
+                raise RuntimeError("user guard tripped")
+
+        def reset(self):
+            pass
+    Guard(d)
+    out = {"C02": [], "C13": []}
+    tr = gen.Tracker(jobs)
+    recorded = []
+    while not tr.done():
+        j, p, m = gen.gen_valid_request(r, tr)
+        op = inst.jobs[j][p]
+        mm = op.machines[0] if m == "none" else int(m)
+        before = [list(ms) for ms in d.schedule.schedule]
+        want_start = forced_start(inst, before, op, mm)
+        raised = False
+        try:
+            d.dispatch(op, None if m == "none" else int(m))
+        except RuntimeError:
+            raised = True
+        lists = d.schedule.schedule
+        sop = next((x for ms in lists for x in ms if x.operation is op), None)
+        what = f"`dispatch(op {op.operation_id}, machine {mm})`" + (" (the user's observer raised, the caller went on)" if raised else "")
+        if sop is None and not raised:
+            out["C02"].append(("append", f"{what}: accepted but not in the schedule"))
+            break
+        if sop is not None:
+            tr.take(j)
+            recorded.append((op, mm))
+            if sop.start_time != want_start or sop.machine_id != mm:
+                out["C02"].append(("start", f"{what}: started at {sop.start_time} on machine {sop.machine_id}, forced start "
+                                   f"max(job_ready, machine_free) = {want_start}"))
+        t = derive_tracking(inst, lists)
+        if list(d.machine_next_available_time) != t["mach_next"] or list(d.job_next_operation_index) != t["job_idx"] or \
+                list(d.job_next_available_time) != t["job_next"] or d.schedule.num_scheduled_operations != t["count"]:
+            out["C02"].append(("tracking", f"after {what}: tracking (machine {list(d.machine_next_available_time)}, job index "
+                               f"{list(d.job_next_operation_index)}, job {list(d.job_next_available_time)}, count "
+                               f"{d.schedule.num_scheduled_operations}) but the schedule implies ({t['mach_next']}, {t['job_idx']}, "
+                               f"{t['job_next']}, {t['count']})"))
+        n = t["count"]
+        mks = t["makespan"]
+        idl = sum((ms[-1].end_time - sum(x.operation.duration for x in ms)) for ms in lists if ms)
+        for name, o, want in (("makespan", mk, -mks), ("idle-time", idle, -idl)):
+            if len(o.rewards) != n or sum(o.rewards) != want or any(x > 0 for x in o.rewards):
+                out["C13"].append((name + "-sum", f"after {what}: {name} rewards {o.rewards} for {n} scheduled operations, expected sum {want}"))
+        if out["C02"] or out["C13"]:
+            break
+        if sop is None:
+            # the library took the operation back: the request can be made again
+            continue
+    if not out["C02"] and tr.done():
+        fresh = jsl.Dispatcher(inst)
+        for op, mm in recorded:
+            fresh.dispatch(op, mm)
+        if dump_schedule(fresh.schedule.schedule) != dump_schedule(d.schedule.schedule):
+            out["C02"].append(("replay-fresh", "re-dispatching the scheduled (operation, machine) sequence on a fresh dispatcher gives a "
+                               "different schedule (a user observer raised once on the way)"))
+    del hist
+    return out
